@@ -31,7 +31,9 @@ LEVEL = 'exploration'
 TECHNIQUE = ('runtime monitoring: post-condition oracle on every decoder '
              'construction / decode() result (shape, binarity, own-arithmetic '
              'syndrome equality, trivial syndrome) with decoder reuse; '
-             'process isolation + valgrind memcheck as native-memory monitor')
+             'process isolation + valgrind memcheck as native-memory monitor; '
+             'termination monitor on logical steps (repeated loop state under '
+             'sys.settrace) for the XCube path walker')
 MANIFEST_TEXT = ('All 7 registered decoders are built on every code class '
                  'they declare (all 16 for BP-OSD/MBP), cubic and non-cubic '
                  'sizes, CSS and Clifford-deformed, 6 noise directions with '
